@@ -1473,7 +1473,7 @@ def adapt_classes_any(val, serialize, instantiate_classes, sub_add_kwargs):
         orig_val = val
         val = subclass_spec_as_namespace(val)
         init_args = recreate_branches(val.get("init_args"))
-        if init_args and not instantiate_classes:
+        if isinstance(init_args, Namespace) and init_args and not instantiate_classes:
             for subkey, subval in init_args.__dict__.items():
                 init_args[subkey] = adapt_classes_any(subval, serialize, instantiate_classes, sub_add_kwargs)
             val["init_args"] = init_args
